@@ -59,10 +59,15 @@ def run(ctx):
         # and code that only re-wraps self's buffer, or a prefix of it cut at or after the path offset, with self's
         # offsets (a `parent` that slices instead of truncating a clone).  The latter are recognised by what they build.
         allowed = {adt + "::from_bytes", adt + "::join"}
+        # A private function that exists only as a part of one reviewed writer (every reference to it is made by that
+        # writer or by another part of it) is that writer: what it builds or modifies, the writer builds or modifies,
+        # and the writer's rules are asked of it (offsets copied from the writer's self, checks before, separator).
+        fixed = {adt + "::unshare", adt + "::path_into_dir", adt + "::join"}        # the reviewed writers of the buffer
+        part_of = private_parts(f, allowed | fixed)
         lit_cuts = {}
         for bd, bi, si, st in sites:
             w = root_fn(f, bd.name)
-            if w in allowed or "arbitrary::Arbitrary" in w or "::arbitrary" in w:
+            if part_of.get(w, w) in allowed or "arbitrary::Arbitrary" in w or "::arbitrary" in w:
                 continue
             ok_, det_ = literal_cut(f, bd, st, adt, bytes_f, off)
             prev = lit_cuts.get(w)
@@ -72,14 +77,17 @@ def run(ctx):
                "%s {..} is built only in from_bytes, join (and the test-support Arbitrary impl), or as a prefix of self "
                "cut at or after the path offset with self's offsets" % short(adt),
                detail={"sites": fns, "not a prefix copy of self": {x: lit_cuts[x][1] for x in extra} or None})
-        # join copies the offsets of self
+        # join copies the offsets of self (in a part of join: of the part's self, which is join's self at every call)
         for bd, bi, si, st in sites:
-            if root_fn(f, bd.name) != adt + "::join":
+            w = root_fn(f, bd.name)
+            if part_of.get(w, w) != adt + "::join":
                 continue
             t = K.sym_of(bd).rvalue(st["rv"])
             flds = {k: render(strip_deep(v)) for k, v in t[3]}
             offs = {k: v for k, v in flds.items() if k != bytes_f}
-            ok = all(v == "self." + k for k, v in offs.items())
+            ok = all(v == "self." + k for k, v in offs.items()) and (w == adt + "::join" or self_is_roots_self(f, w, part_of))
+            if w != adt + "::join":
+                flds["built in"] = w
             ctx.ob("R-FLOW", "%s::join:offsets-copied" % short(adt), ok,
                    "%s::join keeps self's offsets (only appends after them)" % short(adt), where=bd.where(bi, si), detail=flds)
         # who writes the fields after construction
@@ -108,10 +116,10 @@ def run(ctx):
                 bw |= v
         # Who may touch the buffer: unshare (copy), path_into_dir (append '/'), join (a clone whose buffer is replaced by
         # the checked, extended one) — and any function that does nothing to it but cut it at or after the path offset
-        # (parent is one; a new `to_module` would be another).  The latter are recognised by what they do.
-        fixed = {adt + "::unshare", adt + "::path_into_dir", adt + "::join"}
+        # (parent is one; a new `to_module` would be another).  The latter are recognised by what they do.  (`fixed`,
+        # above; a private part of one of the three is that function.)
         cutters = {}
-        for w in sorted(bw - fixed):
+        for w in sorted(x for x in bw if part_of.get(x, x) not in fixed):
             wb = f.body(w)
             cutters[w] = shrinks_only(f, wb, adt, bytes_f, off) if wb is not None else (False, "no body")
         for w, (ok_, det_) in lit_cuts.items():
@@ -247,21 +255,22 @@ def run(ctx):
         okv = bool(vals) and all(re.match(r"^result::Result::Ok\{0: (\w+⟵)?self\}$", v) or v.startswith("result::Result::Ok{0: uri::Rsync::Rsync{") for v in vals)
         ctx.ob("R-FLOW", "Rsync::join:results", okv, "Rsync::join returns either a clone of self (empty path) or the extended URI",
                where=jb.loc, detail=vals)
-    # scheme guards
-    b = f.body("uri::Rsync::from_bytes")
-    if b is not None:
-        g = pred_matcher(r"starts_with_ignore_case$", (r"^bytes$", r"^b'rsync://'$"))
-        mp = MustPass(f, lambda c: False, guard_fn=lambda bd, s, bb: guard_edges(bd, s, bb, g), name="scheme rsync")
+    # scheme guards: the constructor succeeds only for bytes that start with its scheme, compared ignoring case.  The
+    # fact is asked of the *value* tested, however the test is spelt: the ignore-case prefix test on `bytes` itself,
+    # or a test of the Scheme value a classifier made from `bytes` (a `match` on it, a variant predicate, `==`), where
+    # a classifier is any function shown to build that variant only under the same prefix test on its argument.
+    for ty, lit, what in (("Rsync", "b'rsync://'", "the rsync:// prefix (case-insensitive)"),
+                          ("Https", "b'https://'", "the https:// prefix")):
+        b = f.body("uri::%s::from_bytes" % ty)
+        if b is None:
+            continue
+        direct = pred_matcher(r"starts_with_ignore_case$", (r"^bytes$", "^%s$" % re.escape(lit)))
+        by_value = scheme_value_edges(f, lit, r"^bytes$")
+        g = any_of(lambda bd, s, bb, m=direct: guard_edges(bd, s, bb, m), by_value)
+        mp = MustPass(f, lambda c: False, guard_fn=g, name="scheme " + ty.lower())
         ok = mp.holds(b.name)
-        ctx.ob("R-GRD", "Rsync::from_bytes:scheme", ok, "Rsync::from_bytes requires the rsync:// prefix (case-insensitive)",
-               where=b.loc, detail=None if ok else K.why(f, mp, b.name))
-    b = f.body("uri::Https::from_bytes")
-    if b is not None:
-        g = pred_matcher(r"Scheme::is_https$", (r"Scheme::from_prefix\(bytes\)",))
-        mp = MustPass(f, lambda c: False, guard_fn=lambda bd, s, bb: guard_edges(bd, s, bb, g), name="scheme https")
-        ok = mp.holds(b.name)
-        ctx.ob("R-GRD", "Https::from_bytes:scheme", ok, "Https::from_bytes requires the https:// prefix", where=b.loc,
-               detail=None if ok else K.why(f, mp, b.name))
+        ctx.ob("R-GRD", "%s::from_bytes:scheme" % ty, ok, "%s::from_bytes requires %s" % (ty, what),
+               where=b.loc, detail=None if ok else {"why": K.why(f, mp, b.name), "classifiers": by_value.classifiers})
     ctx.rule("R-GRD", "success requires the guard literal")
 
     # ---- C12.c one case-insensitive boundary per type ----------------------------
@@ -347,6 +356,7 @@ def run(ctx):
         sym = oc.sym
         appends = []
         slash_blocks = set()
+        chosen = []
         for c in b.calls():
             if b.is_cleanup(c.bb) or c.name not in ("extend_from_slice", "put_slice", "put", "extend"):
                 continue
@@ -355,6 +365,24 @@ def run(ctx):
                 appends.append(c)
             elif len(a) > 1 and a[1] == "b'/'":
                 slash_blocks.add(c.bb)
+            elif len(a) > 1 and K.arg_terms(c)[1][0] == "var":
+                chosen.append((c, K.arg_terms(c)[1]))
+        # A separator chosen first and appended later (`sep = if … { b"" } else { b"/" }; buf.extend(sep)`): the append
+        # writes '/' on exactly the paths that come through a definition `sep = b"/"`.  Such a definition stands for
+        # the append of '/' when, from it, the caller's path can only be appended after `sep` was, and `sep` cannot
+        # have been given another value on the way (no other definition of it is reachable from this one).
+        for c, t in chosen:
+            if len(appends) != 1 or t[2] in getattr(sym, "_mutb", ()):
+                continue
+            defs = sym.defs_of_var(t[2])
+            for d_bb, d_t in defs:
+                if render(strip_deep(d_t)) != "b'/'" or b.is_cleanup(d_bb):
+                    continue
+                after = b.reachable(d_bb)
+                if any(o_bb != d_bb and o_bb in after for o_bb, _ in defs):
+                    continue
+                if d_bb == c.bb or appends[0].bb not in b.reachable(d_bb, removed_blocks={c.bb}):
+                    slash_blocks.add(d_bb)
         # Rsync URIs always contain "<module>/", so a trailing '/' of the whole URI is a path separator; an Https URI may
         # be path-less ("https://host", "https://"), there only a trailing '/' of the *path* counts
         recv = r"^(self\.bytes|\w+::path(_bytes)?\(self\))$" if fn.endswith("Rsync::join") else r"^\w+::path(_bytes)?\(self\)$"
@@ -395,6 +423,249 @@ def run(ctx):
                where=rb.loc, detail=None if ok else K.why(f, mp, rb.name))
 
 
+
+
+SCHEME = "uri::Scheme"
+_STD_VARIANT_KEEPING = {"branch", "map_err", "as_ref", "copied", "cloned", "inspect", "inspect_err", "ok", "ok_or", "ok_or_else"}
+
+
+def _bare_ty(ty):
+    ty = (ty or "").strip()
+    while ty.startswith("&"):
+        ty = ty[1:].strip()
+        if ty.startswith("mut "):
+            ty = ty[4:].strip()
+    return ty
+
+
+def scheme_classifiers(f, lit):
+    """{G: variants}: the functions that make Scheme values from bytes, with the variants (by index) that G builds only
+    where `starts_with_ignore_case(<G's first parameter>, lit)` holds.  G qualifies only if every Scheme it can return
+    is built in G itself (no Scheme comes in by parameter or from a call) and its result holds exactly one Scheme."""
+    rec = f.adts.get(SCHEME)
+    if rec is None:
+        return {}
+    index = {v["name"]: i for i, v in enumerate(rec["variants"])}
+    built = {}
+    for bd, bi, si, st in aggregates_of(f, SCHEME):
+        if not is_derived(bd):
+            built.setdefault(bd.name, []).append((bi, st["rv"].get("variant")))
+    out = {}
+    for name, sites in built.items():
+        gb = f.body(name)
+        if gb is None or "{closure" in name or "rbitrary" in name or gb.arg_count < 1 or (gb.ret_ty or "").count(SCHEME) != 1:
+            continue
+        if any(SCHEME in (gb.local_ty(i) or "") for i in range(1, gb.arg_count + 1)):
+            continue
+        if any(SCHEME in (gb.local_ty(c.dest["l"]) or "") for c in gb.calls() if not gb.is_cleanup(c.bb)):
+            continue
+        if any(f.children(name)):
+            continue
+        p1 = gb.local_name(1) or "_1"
+        g = pred_matcher(r"^uri::starts_with_ignore_case$", ("^%s$" % re.escape(p1), "^%s$" % re.escape(lit)))
+        sym = K.sym_of(gb)
+        edges = set()
+        for bi, blk in enumerate(gb.blocks):
+            if blk["term"]["t"] == "switch" and not blk.get("cleanup"):
+                edges.update(guard_edges(gb, sym, bi, g) or ())
+        reach = gb.reachable(0, removed_edges=edges)
+        vs = {index[v] for _, v in sites if v in index and all(bi not in reach for bi, v2 in sites if v2 == v)}
+        if vs:
+            out[name] = vs
+    return out
+
+
+def scheme_variant_tests(f):
+    """{P: variants}: functions `fn(Scheme) -> bool` with the variants (by index) for which they answer true, read off
+    their bodies: a switch on the discriminant of the argument leading to constant answers."""
+    rec = f.adts.get(SCHEME)
+    out = {}
+    if rec is None:
+        return out
+    for name, bd in f.bodies.items():
+        if bd.arg_count != 1 or bd.ret_ty != "bool" or _bare_ty(bd.local_ty(1)) != SCHEME or is_derived(bd) or any(True for _ in bd.calls()):
+            continue
+        sym = K.sym_of(bd)
+        p1 = ("param", bd.local_name(1) or "_1")
+        yes = set()
+        for v in range(len(rec["variants"])):
+            bb, val = 0, None
+            for _ in range(60):
+                for st in bd.blocks[bb]["stmts"]:
+                    if st["s"] == "assign" and st["pl"]["l"] == 0 and not st["pl"]["p"]:
+                        t = strip_deep(sym.rvalue(st["rv"]))
+                        val = bool(t[1]) if t[0] == "const" and t[1] in (0, 1, True, False) else "?"
+                t = bd.term(bb)
+                if t["t"] == "goto":
+                    bb = t["target"]
+                elif t["t"] == "switch":
+                    d = strip(sym.operand(t["discr"]))
+                    if d[0] != "discr" or strip_deep(d[1]) != p1:
+                        val = "?"
+                        break
+                    bb = dict((x, y) for x, y in t["targets"]).get(v, t["otherwise"])
+                else:
+                    if t["t"] != "return":
+                        val = "?"
+                    break
+            if val is True:
+                yes.add(v)
+            elif val is not False:
+                yes = None
+                break
+        if yes is not None:
+            out[name] = yes
+    return out
+
+
+def scheme_value_edges(f, lit, arg_rx):
+    """guard_fn for MustPass: the edges of a switch on which the Scheme value made from the bytes `arg_rx` by a classifier
+    (scheme_classifiers) is known to be a variant that the classifier builds only under the prefix `lit`."""
+    cls = scheme_classifiers(f, lit)
+    tests = scheme_variant_tests(f) if cls else {}
+    rec = f.adts.get(SCHEME) or {"variants": []}
+    index = {v["name"]: i for i, v in enumerate(rec["variants"])}
+    every = set(range(len(rec["variants"])))
+
+    def origin(t):
+        """The classifier whose result (applied to the bytes) the term is a part of."""
+        t = strip_deep(t)
+        for _ in range(16):
+            if t[0] in ("field", "variant"):
+                t = strip_deep(t[1])
+            elif t[0] == "call":
+                info = t[3] or {}
+                g = info.get("res") or t[1]
+                if g in cls:
+                    return g if t[2] and re.search(arg_rx, render(strip_deep(t[2][0]))) else None
+                if (info.get("krate") or "") in _STD and info.get("name") in _STD_VARIANT_KEEPING and t[2]:
+                    t = strip_deep(t[2][0])
+                else:
+                    return None
+            else:
+                return None
+        return None
+
+    def discriminated_ty(body, op):
+        pl = op.get("m") or op.get("c")
+        if pl is None or pl["p"]:
+            return None
+        ds = [st for blk in body.blocks for st in blk["stmts"] if st["s"] == "assign" and st["pl"]["l"] == pl["l"] and not st["pl"]["p"]]
+        if len(ds) != 1 or ds[0]["rv"]["r"] != "discr":
+            return None
+        src = ds[0]["rv"]["pl"]
+        for pe in reversed(src["p"]):
+            if pe[0] == "d":
+                continue
+            return _bare_ty(pe[3]) if pe[0] == "f" and len(pe) > 3 else None
+        return _bare_ty(body.local_ty(src["l"]))
+
+    def implied(bb, yes_edge, no_edge, true_for, wanted):
+        """The test is true exactly for the variants `true_for`: the edge on which the variant is one of `wanted`."""
+        if true_for and true_for <= wanted:
+            return [(bb, yes_edge)]
+        if (every - true_for) and (every - true_for) <= wanted:
+            return [(bb, no_edge)]
+        return None
+
+    def g(body, sym, bb):
+        if not cls:
+            return None
+        t = body.term(bb)
+        if t["t"] != "switch":
+            return None
+        if t.get("dty") != "bool":
+            d = strip(sym.operand(t["discr"]))
+            if d[0] != "discr" or discriminated_ty(body, t["discr"]) != SCHEME:
+                return None
+            src = origin(d[1])
+            if src is None:
+                return None
+            wanted = cls[src]
+            edges = [(bb, tb) for v, tb in t["targets"] if v in wanted]
+            rest = every - {v for v, _ in t["targets"]}
+            if rest and rest <= wanted:
+                edges.append((bb, t["otherwise"]))
+            return edges or None
+        e = switch_bool_edges(body, bb)
+        at = bool_atom(sym.operand(t["discr"]))
+        if e is None or at is None:
+            return None
+        rel, a, b_, pos = at
+        no_edge, yes_edge = e if pos else (e[1], e[0])
+        if isinstance(rel, tuple) and rel[0] == "pred" and rel[1] in tests and len(a) == 1:
+            src = origin(a[0])
+            return implied(bb, yes_edge, no_edge, tests[rel[1]], cls[src]) if src else None
+        if rel == "eq" and b_ is not None:
+            for x, y in ((a, b_), (b_, a)):
+                y = strip_deep(y)
+                if y[0] == "agg" and y[1] == SCHEME and y[2] in index:
+                    src = origin(x)
+                    return implied(bb, yes_edge, no_edge, {index[y[2]]}, cls[src]) if src else None
+        return None
+    g.classifiers = {k: sorted(rec["variants"][i]["name"] for i in v) for k, v in cls.items()}
+    return g
+
+
+_USERS = {}
+
+
+def _users(f):
+    """{function: the functions (closures counted with their creator) that call it or use it as a value}."""
+    ent = _USERS.get(id(f))
+    if ent is None or ent[0] is not f:
+        from engine.callgraph import CallGraph
+        cg = CallGraph(f)
+        users = {}
+        for n in list(f.bodies.keys()):
+            for m in cg.edges(n):
+                if m in f.bodies:
+                    users.setdefault(root_fn(f, m), set()).add(root_fn(f, n))
+        ent = (f, users)
+        _USERS[id(f)] = ent
+    return ent[1]
+
+
+def private_parts(f, roots):
+    """{helper: root}: functions that exist only as a part of one of the functions `roots` — private (not exported, not a
+    trait method, not async) and referenced, by call or as a value, only by that root or by other parts of it."""
+    users = _users(f)
+    parts = {}
+    changed = True
+    while changed:
+        changed = False
+        for h, us in users.items():
+            r = f.fns.get(h)
+            if h in parts or h in roots or r is None or not r.get("has_body") or r.get("exported") or r.get("impl_trait") \
+                    or r.get("async") or f.body(h) is None:
+                continue
+            owners = {parts.get(u, u if u in roots else None) for u in us if u != h}
+            if len(owners) == 1 and None not in owners:
+                parts[h] = owners.pop()
+                changed = True
+    return parts
+
+
+def self_is_roots_self(f, h, part_of, depth=0):
+    """Every call of the part `h` hands on the caller's own `self` as `h`'s self, up to the root it is a part of."""
+    hb = f.body(h)
+    if hb is None or depth > 6 or hb.arg_count < 1 or hb.local_name(1) != "self":
+        return False
+    n = 0
+    for u in _users(f).get(h, ()):
+        for ub in [f.body(u)] + [f.body(x) for x in f.children(u)]:
+            if ub is None:
+                continue
+            for c in ub.calls():
+                if c.res != h or ub.is_cleanup(c.bb):
+                    continue
+                n += 1
+                a = K.arg_terms(c)
+                if not a or a[0] != ("param", "self") or ub.name != u:
+                    return False
+        if u in part_of and not self_is_roots_self(f, u, part_of, depth + 1):
+            return False
+    return n > 0
 
 
 def path_checkers(f):
